@@ -191,12 +191,45 @@ class Frame:
         self.seen_bb = self.prev_bb = None   # block being executed / the one before it (edge by which a loop is left)
 
 
+class VariantMap(dict):
+    """term -> variant index known on the path.  Recorded when a match decides it; `get` also reads it off the path
+    facts (discr(t) == k, or discr(t) != k for a two-variant type), so a variant decided through is_some(), `?`,
+    contains_key() or an if-let / else chain is known the same way as one decided by a match."""
+    __slots__ = ('state',)
+
+    def __init__(self, state, items=()):
+        dict.__init__(self, items)
+        self.state = state
+
+    def get(self, key, default=None):
+        if dict.__contains__(self, key):
+            return dict.__getitem__(self, key)
+        d = ('discr', key)
+        ne = []
+        for f in self.state.pc:
+            if f[0] == 'cmp' and f[1] in ('eq', 'ne'):
+                a, b = f[2], f[3]
+                if b == d and a[0] == 'int':
+                    a, b = b, a
+                if a == d and b[0] == 'int':
+                    if f[1] == 'eq':
+                        return b[1]
+                    ne.append(b[1])
+        if ne:
+            n = T.TYPES.get(('#nvariants', key))
+            if n is not None:
+                rest = [k for k in range(n) if k not in ne]
+                if len(rest) == 1:
+                    return rest[0]
+        return default
+
+
 class State:
     def __init__(self):
         self.frames = []
         self.pc = []          # list of boolean terms (conjunction)
         self.pcset = set()
-        self.variants = {}    # term -> variant index (known discriminants)
+        self.variants = VariantMap(self)    # term -> variant index (known discriminants)
         self.events = []      # (kind, site, detail)
         self.trace = []       # (fn, bb) of branch decisions, for reports
         self.ghost = {}       # ghost counters / markers maintained by rules
@@ -217,7 +250,7 @@ class State:
             s.frames.append(nf)
         s.pc = list(self.pc)
         s.pcset = set(self.pcset)
-        s.variants = dict(self.variants)
+        s.variants = VariantMap(s, dict.items(self.variants))
         s.events = list(self.events)
         s.trace = list(self.trace)
         s.ghost = dict(self.ghost)
